@@ -46,6 +46,8 @@ module Pos :
 
   val coq_Ndouble : coq_N -> coq_N
 
+  val coq_lor : positive -> positive -> positive
+
   val coq_land : positive -> positive -> coq_N
 
   val coq_lxor : positive -> positive -> coq_N
